@@ -53,12 +53,18 @@ func TestMain(m *testing.M) { kit.Main(m) }
 
 // Step is one self-contained operation of a worker (no descriptor survives a step).
 type Step struct {
-	// read | write | writeflush | mode | modtime | setmode | setmtime | size | list |
-	// flush | flushpath | flushdir | mv | mvdir
+	// read | write | writeflush | writemulti | mode | modtime | getnode | type | setmode |
+	// setmtime | size | list | flush | flushpath | flushdir | mv | mvdir
 	Kind string `json:"kind"`
 	File int    `json:"file,omitempty"` // index into the token files
 	Sync bool   `json:"sync,omitempty"` // write: open the descriptor with Flags.Sync
-	Arg  int    `json:"arg,omitempty"`  // mv direction, list target, mode bits
+	// mv direction, list target, mode bits; writemulti: number of WriteAt+Flush rounds on the
+	// one descriptor
+	Arg int `json:"arg,omitempty"`
+	// Rep > 1, read-side accessors only (size, mode, modtime, getnode, type, list): the object
+	// is looked up once and the accessor is called Rep times back to back, so that the worker
+	// spends most of its time inside the accessor's lock section (a hot reader loop).
+	Rep int `json:"rep,omitempty"`
 }
 
 type Case struct {
@@ -67,6 +73,11 @@ type Case struct {
 	Workers [][]Step `json:"workers"`
 	// NoExclude disables the exclusion of open known findings (finding repro cases).
 	NoExclude bool `json:"no_exclude,omitempty"`
+	// Follow: a worker whose script consists of read-side accessors only (isFollower) does
+	// not stop after Loops passes but keeps repeating its script until every other worker
+	// has finished (bounded by followBudget accessor calls), so that the hot reader loops
+	// overlap the whole life of the writers whatever the relative cost of the operations.
+	Follow bool `json:"follow,omitempty"`
 	// Sched, when set, makes the child wrap the DAGService of the MFS root so that
 	// DAGService.Add/Get calls become harness-owned scheduling points (see schedDAG).
 	Sched *Sched `json:"sched,omitempty"`
@@ -106,7 +117,7 @@ const (
 
 func takesNodeWriteLock(k string) bool {
 	switch k {
-	case "read", "write", "writeflush", "setmode", "setmtime", "flushpath":
+	case "read", "write", "writeflush", "writemulti", "setmode", "setmtime", "flushpath":
 		// every descriptor Close/Flush (also of a read descriptor) and every metadata
 		// update takes File.nodeLock for writing
 		return true
@@ -116,22 +127,55 @@ func takesNodeWriteLock(k string) bool {
 
 func isMetaRead(k string) bool { return k == "mode" || k == "modtime" }
 
+// isAccessor: read-side accessors of a File (list: of the entries of a directory, which
+// calls GetNode, Type and Size of every file below it while holding the directory lock).
+// They all read File.node under nodeLock.RLock (Type reads nothing).
+func isAccessor(k string) bool {
+	switch k {
+	case "size", "mode", "modtime", "getnode", "type", "list":
+		return true
+	}
+	return false
+}
+
+// isFollower: the script consists of read-side accessors only.
+func isFollower(sc []Step) bool {
+	for _, s := range sc {
+		if !isAccessor(s.Kind) {
+			return false
+		}
+	}
+	return len(sc) > 0
+}
+
+// followBudget bounds the accessor calls of a follower (a listing counts as 16): it ends
+// a follower whose writers never finish, so that after a deadlock every worker that is not
+// parked in a lock has finished when the watchdog looks.
+const followBudget = 2_000_000
+
+var repChoices = []int{1, 8, 64, 64, 512, 512}
+
 // ---------------------------------------------------------------------------
 // generator
 
 func genStep(t *rapid.T) Step {
 	k := rapid.SampledFrom([]string{
-		"read", "read", "write", "write", "write", "writeflush", "mode", "mode", "modtime",
-		"setmode", "setmtime", "size", "list", "flush", "flushpath", "flushdir", "mv", "mvdir",
+		"read", "read", "write", "write", "write", "writeflush", "writemulti", "mode", "mode", "modtime",
+		"setmode", "setmtime", "size", "size", "getnode", "type", "list", "flush", "flushpath", "flushdir", "mv", "mvdir",
 	}).Draw(t, "kind")
 	s := Step{Kind: k}
-	switch k {
-	case "read", "write", "writeflush", "mode", "modtime", "setmode", "setmtime", "size", "flushpath":
+	if isFileOp(k) {
 		s.File = rapid.IntRange(0, len(filePaths)-1).Draw(t, "file")
+	}
+	if isAccessor(k) {
+		s.Rep = rapid.SampledFrom([]int{1, 1, 8, 64}).Draw(t, "rep")
 	}
 	switch k {
 	case "write", "writeflush":
 		s.Sync = rapid.Bool().Draw(t, "sync")
+	case "writemulti":
+		s.Sync = rapid.Bool().Draw(t, "sync")
+		s.Arg = rapid.IntRange(2, 3).Draw(t, "rounds")
 	case "setmode":
 		s.Arg = rapid.SampledFrom([]int{0o644, 0o600, 0o755}).Draw(t, "mode")
 	case "list", "flushdir", "mv", "mvdir":
@@ -165,8 +209,22 @@ func gen(t *rapid.T) Case {
 	c.Procs = rapid.SampledFrom([]int{2, 16}).Draw(t, "procs")
 	c.Loops = rapid.IntRange(kit.Scale(60, 100), kit.Scale(250, 500)).Draw(t, "loops")
 	c.Sched = genSched(t)
-	if rapid.IntRange(0, 2).Draw(t, "profile") == 0 {
+	switch rapid.IntRange(0, 3).Draw(t, "profile") {
+	case 0:
 		c.Workers = genOwnerVsFlushers(t)
+		return c
+	case 1:
+		c.Workers = genReadersVsWriters(t)
+		c.Follow = rapid.IntRange(0, 3).Draw(t, "follow") > 0
+		// the steps of this shape are cheap (one file, no directory flush): more passes, i.e.
+		// more write-lock acquisitions that sample the readers' lock sections
+		c.Loops = rapid.SampledFrom([]int{150, 250, 400, kit.Scale(400, 800)}).Draw(t, "rwloops")
+		if c.Sched != nil {
+			// A listing stores the node of every sub-directory (DAGService.Add of a directory
+			// node): as scheduling points these would make every looped listing wait. Only the
+			// Adds of file nodes (descriptor Flush/Close, SetMode/SetModTime) are points here.
+			c.Sched.On, c.Sched.Nodes = "add", "file"
+		}
 		return c
 	}
 	nw := rapid.IntRange(2, 4).Draw(t, "workers")
@@ -178,9 +236,11 @@ func gen(t *rapid.T) Case {
 		for i := 0; i < n; i++ {
 			s := genStep(t)
 			if rapid.IntRange(0, 2).Draw(t, "tohot") > 0 {
-				switch s.Kind {
-				case "read", "write", "writeflush", "mode", "modtime", "setmode", "setmtime", "size", "flushpath":
+				if isFileOp(s.Kind) {
 					s.File = hot
+				}
+				if s.Kind == "list" {
+					s.Arg = dirOf(hot)
 				}
 			}
 			sc = append(sc, s)
@@ -188,6 +248,76 @@ func gen(t *rapid.T) Case {
 		c.Workers = append(c.Workers, sc)
 	}
 	return c
+}
+
+// genReadersVsWriters draws the "hot readers against node-lock writers" shape: every
+// read-side accessor of one File (Size, Mode, ModTime, GetNode, Type, and the listing of its
+// parent directory, which calls GetNode/Type/Size for every file while it holds the directory
+// lock) is looped by 1-2 reader workers (Step.Rep back-to-back calls on the looked-up object)
+// while 1-2 other workers run the operations that take the same File's nodeLock for writing
+// (every descriptor Close/Flush, SetMode, SetModTime, File.Flush through FlushPath). With
+// Case.Follow the readers keep going for as long as the writers run. A read lock that is
+// taken twice on one call path (or any other lock taken in inconsistent order between an
+// accessor and an update) wedges as soon as a writer queues in between; the fraction of time
+// a hot reader spends between two such acquisitions is a few per cent, and every one of the
+// hundreds of writer acquisitions of a case samples it.
+func genReadersVsWriters(t *rapid.T) [][]Step {
+	f := rapid.IntRange(0, len(filePaths)-1).Draw(t, "hotfile")
+	accessor := func(k string) Step {
+		s := Step{Kind: k, File: f, Rep: rapid.SampledFrom(repChoices).Draw(t, "rep")}
+		if k == "list" {
+			s.File, s.Arg = 0, dirOf(f)
+			if s.Rep > 16 {
+				s.Rep = 16 // a listing is ~16 accessor calls (GetNode, Type, Size of every entry)
+			}
+		}
+		return s
+	}
+	var ws [][]Step
+	// reader A: 2-5 different accessors in a generated order (+ maybe Type)
+	perm := rapid.Permutation([]string{"size", "mode", "modtime", "getnode", "list"}).Draw(t, "accessors")
+	na := rapid.IntRange(2, len(perm)).Draw(t, "nacc")
+	var ra []Step
+	for _, k := range perm[:na] {
+		ra = append(ra, accessor(k))
+	}
+	if rapid.IntRange(0, 3).Draw(t, "type") == 0 {
+		ra = append(ra, accessor("type"))
+	}
+	ws = append(ws, ra)
+	// reader B (two cases in three): a tight loop over 1-2 accessors
+	if rapid.IntRange(0, 2).Draw(t, "readerb") > 0 {
+		nb := rapid.IntRange(1, 2).Draw(t, "nb")
+		var rb []Step
+		for i := 0; i < nb; i++ {
+			rb = append(rb, accessor(rapid.SampledFrom([]string{"size", "mode", "modtime", "getnode", "list", "list"}).Draw(t, "bkind")))
+		}
+		ws = append(ws, rb)
+	}
+	// writers of the node lock of f
+	nw := rapid.IntRange(1, 4-len(ws)).Draw(t, "writers")
+	for w := 0; w < nw; w++ {
+		n := rapid.IntRange(1, 3).Draw(t, "steps")
+		var sc []Step
+		for i := 0; i < n; i++ {
+			k := rapid.SampledFrom([]string{
+				"write", "write", "writeflush", "writemulti", "setmode", "setmtime", "flushpath", "read",
+			}).Draw(t, "wkind")
+			s := Step{Kind: k, File: f}
+			switch k {
+			case "write", "writeflush":
+				s.Sync = rapid.Bool().Draw(t, "sync")
+			case "writemulti":
+				s.Sync = rapid.Bool().Draw(t, "sync")
+				s.Arg = rapid.IntRange(2, 3).Draw(t, "rounds")
+			case "setmode":
+				s.Arg = rapid.SampledFrom([]int{0o644, 0o600, 0o755}).Draw(t, "mode")
+			}
+			sc = append(sc, s)
+		}
+		ws = append(ws, sc)
+	}
+	return ws
 }
 
 // genOwnerVsFlushers draws the "single owner" shape: worker 0 is the only worker that ever
@@ -208,10 +338,10 @@ func genOwnerVsFlushers(t *rapid.T) [][]Step {
 	n := rapid.IntRange(2, 5).Draw(t, "ownsteps")
 	for i := 0; i < n; i++ {
 		k := rapid.SampledFrom([]string{
-			"write", "write", "write", "writeflush", "writeflush", "read", "read", "read", "flushpath", "flush", "size", "list", "mode", "setmode", "setmtime",
+			"write", "write", "write", "writeflush", "writeflush", "writemulti", "writemulti", "read", "read", "read", "flushpath", "flush", "size", "list", "mode", "setmode", "setmtime",
 		}).Draw(t, "ownkind")
 		if i == 0 {
-			k = rapid.SampledFrom([]string{"write", "writeflush"}).Draw(t, "ownfirst")
+			k = rapid.SampledFrom([]string{"write", "writeflush", "writemulti"}).Draw(t, "ownfirst")
 		}
 		s := Step{Kind: k, File: f}
 		switch k {
@@ -219,6 +349,9 @@ func genOwnerVsFlushers(t *rapid.T) [][]Step {
 			s.Sync = true
 		case "writeflush":
 			s.Sync = rapid.Bool().Draw(t, "sync")
+		case "writemulti":
+			s.Sync = rapid.Bool().Draw(t, "sync")
+			s.Arg = rapid.IntRange(2, 3).Draw(t, "rounds")
 		case "flush":
 			s.File = 0
 		case "list":
@@ -625,7 +758,7 @@ func metaExplains(c Case, f int) bool {
 					continue
 				}
 				for _, s2 := range sc2 {
-					if (s2.Kind == "write" || s2.Kind == "writeflush") && s2.File == f {
+					if (s2.Kind == "write" || s2.Kind == "writeflush" || s2.Kind == "writemulti") && s2.File == f {
 						return true
 					}
 				}
@@ -699,6 +832,24 @@ func classify(c Case) []string {
 	if metaReaderVsWriter(c) {
 		set["meta-reader-vs-writer"] = true
 	}
+	for _, k := range []string{"size", "mode", "modtime", "getnode", "type", "list"} {
+		if hot, any := accessorVsNodeWriter(c, k); any {
+			set["accessor-vs-nodelock-writer:"+k] = true
+			if hot {
+				set["hot-accessor-vs-nodelock-writer:"+k] = true
+			}
+		}
+	}
+	if c.Follow {
+		set["follow"] = true
+	}
+	for _, sc := range c.Workers {
+		for _, s := range sc {
+			if s.Kind == "writemulti" {
+				set["one-descriptor-flush-writeat-flush"] = true
+			}
+		}
+	}
 	if ownerVsDirFlush(c) {
 		set["sole-owner-sync-write-vs-dirflush"] = true
 	}
@@ -717,7 +868,7 @@ func classify(c Case) []string {
 
 func isFileOp(k string) bool {
 	switch k {
-	case "read", "write", "writeflush", "mode", "modtime", "setmode", "setmtime", "size", "flushpath":
+	case "read", "write", "writeflush", "writemulti", "mode", "modtime", "getnode", "type", "setmode", "setmtime", "size", "flushpath":
 		return true
 	}
 	return false
@@ -725,10 +876,41 @@ func isFileOp(k string) bool {
 
 func isWriter(k string) bool {
 	switch k {
-	case "write", "writeflush", "setmode", "setmtime":
+	case "write", "writeflush", "writemulti", "setmode", "setmtime":
 		return true
 	}
 	return false
+}
+
+// accessorVsNodeWriter: accessor k (a listing: of the parent directory) of some file in one
+// worker, an operation that takes the same file's nodeLock for writing in another; hot: the
+// accessor is looped (Rep >= 8, or a follower).
+func accessorVsNodeWriter(c Case, k string) (hot, any bool) {
+	for w, sc := range c.Workers {
+		for _, s := range sc {
+			if s.Kind != k {
+				continue
+			}
+			for w2, sc2 := range c.Workers {
+				if w2 == w {
+					continue
+				}
+				for _, s2 := range sc2 {
+					if !takesNodeWriteLock(s2.Kind) {
+						continue
+					}
+					if k == "list" && s.Arg != dirOf(s2.File) || k != "list" && s.File != s2.File {
+						continue
+					}
+					any = true
+					if s.Rep >= 8 || c.Follow && isFollower(sc) {
+						hot = true
+					}
+				}
+			}
+		}
+	}
+	return hot, any
 }
 
 // metaReaderVsWriter: a Mode()/ModTime() reader in one worker, a writer of the same file in another.
@@ -764,7 +946,7 @@ func ownerVsDirFlush(c Case) bool {
 		}
 		for w, sc := range c.Workers {
 			for _, s := range sc {
-				if !(s.File == f && (s.Kind == "writeflush" || s.Kind == "write" && s.Sync)) {
+				if !(s.File == f && (s.Kind == "writeflush" || s.Kind == "writemulti" || s.Kind == "write" && s.Sync)) {
 					continue
 				}
 				for w2, sc2 := range c.Workers {
@@ -812,7 +994,7 @@ func nonTrivial(c Case) bool {
 
 var spec = kit.Spec[Case]{
 	Prop: "C20", Name: "conc",
-	Rule:  "2-4 real goroutines in a child process (GOMAXPROCS 2|16), each looping 60-500 times over a generated script (<=6 steps) of read / slot write (+-Sync, +-descriptor Flush) / Mode / ModTime / SetMode / SetModTime / Size / List / Root.Flush / FlushPath(file|dir) / Mv(file|dir) on 3 shared files in 2 directories; one case in three has the single-owner shape (one worker owns a file and acknowledges every write by a propagating Close/Flush, the others flush the directories above it); three cases in four run with generated scheduling points at the DAGService.Add/Get boundary (every k-th call: hand-off until other workers completed 1-2 steps, or sleep/yield), which widen the lock-free windows of every update that bubbles up the tree; liveness by watchdog + SIGQUIT dump signature, safety by per-worker slots with growing sequence numbers in each file (a write whose Close/Flush returned before a read/flush began must be visible in what that read/flush returns, and in the final flushed root); non-trivial = two workers operate on the same file and one of them writes content or metadata, or one worker writes a file with propagating Close/Flush while another flushes a directory above it",
+	Rule:  "2-4 real goroutines in a child process (GOMAXPROCS 2|16), each looping 60-500 times over a generated script (<=6 steps) of read / slot write (+-Sync, +-descriptor Flush, or 2-3 WriteAt+Flush rounds and a WriteAt+Close on ONE descriptor) / Mode / ModTime / GetNode / Type / SetMode / SetModTime / Size / List / Root.Flush / FlushPath(file|dir) / Mv(file|dir) on 3 shared files in 2 directories, read-side accessors optionally repeated 8-512 times back to back on the looked-up object; one case in four has the single-owner shape (one worker owns a file and acknowledges every write by a propagating Close/Flush, the others flush the directories above it); one case in four has the hot-readers shape (1-2 workers loop 2-6 of the read-side accessors Size/Mode/ModTime/GetNode/Type/List-of-parent of one file, mostly for as long as the others run, while 1-2 workers run operations that take that file's node lock for writing: descriptor Close/Flush of readers and writers, SetMode, SetModTime, FlushPath); three cases in four run with generated scheduling points at the DAGService.Add/Get boundary (every k-th call: hand-off until other workers completed 1-2 steps, or sleep/yield), which widen the lock-free windows of every update that bubbles up the tree; liveness by watchdog + SIGQUIT dump signature, safety by per-worker slots with growing sequence numbers in each file (a write whose Close/Flush returned before a read/flush began must be visible in what that read/flush returns, and in the final flushed root); non-trivial = two workers operate on the same file and one of them writes content or metadata, or one worker writes a file with propagating Close/Flush while another flushes a directory above it",
 	Quick: 30, Thorough: 75,
 	Gen: gen, Run: run,
 }
@@ -843,6 +1025,8 @@ type childRun struct {
 	// scheduling points (Case.Sched)
 	stepsDone atomic.Int64 // completed steps of all workers
 	active    atomic.Int64 // workers still running
+	leaders   atomic.Int64 // non-follower workers still running (Case.Follow)
+	followed  bool         // Case.Follow and there is at least one non-follower worker
 	errs   []string
 	nerrs  int
 	ops    atomic.Int64
@@ -907,8 +1091,9 @@ func (r *childRun) ack(f, w, n int) {
 }
 
 // Every token file consists of maxWorkers fixed slots of tokenLen bytes; worker w only ever
-// overwrites slot w with its next sequence number (one WriteAt per descriptor). A write is
-// acknowledged when the descriptor's Flush or Close has returned nil. Sequence numbers of a
+// overwrites slot w with its next sequence number (one WriteAt per acknowledgement; a
+// "writemulti" step keeps one descriptor across several WriteAt+Flush rounds). A write is
+// acknowledged when the descriptor's Flush or Close has returned nil after it. Sequence numbers of a
 // slot only grow, so "acknowledged write (w,n) is visible" means: slot w reads >= n. The
 // files stay 48 bytes long, which keeps every operation cheap.
 const (
@@ -1087,23 +1272,89 @@ func (r *childRun) step(w int, s Step, seq *int) {
 		}
 		r.ack(s.File, w, *seq) // descriptor closed: acknowledged
 
-	case "mode", "modtime", "setmode", "setmtime", "size":
+	case "writemulti":
+		// ONE descriptor kept across several WriteAt+Flush rounds (each Flush acknowledges the
+		// token written before it); with Flags.Sync one more WriteAt is acknowledged by Close.
 		fi, err := r.file(s.File)
 		if err != nil {
 			r.opError("lookup", err)
 			return
 		}
-		switch s.Kind {
-		case "mode":
-			_, err = fi.Mode()
-		case "modtime":
-			_, err = fi.ModTime()
-		case "setmode":
-			err = fi.SetMode(os.FileMode(s.Arg))
-		case "setmtime":
-			err = fi.SetModTime(time.Unix(1_700_000_000+r.mtimeN.Add(1), 0))
-		case "size":
-			_, err = fi.Size()
+		fd, err := fi.Open(r.ctx, mfs.Flags{Write: true, Sync: s.Sync})
+		if err != nil {
+			r.opError("open(write)", err)
+			return
+		}
+		writeTok := func() bool {
+			*seq++
+			tok := token(w, *seq)
+			n, err := fd.WriteAt([]byte(tok), int64(w*tokenLen))
+			if err != nil || n != len(tok) {
+				if err == nil {
+					err = errors.New("short write")
+				}
+				r.opError("writeat", err)
+				return false
+			}
+			return true
+		}
+		for k := 0; k < s.Arg; k++ {
+			if !writeTok() {
+				fd.Close()
+				return
+			}
+			if err := fd.Flush(); err != nil {
+				r.opError("fd.flush", err)
+				fd.Close()
+				return
+			}
+			r.ack(s.File, w, *seq) // flushed: acknowledged
+		}
+		if s.Sync {
+			if !writeTok() {
+				fd.Close()
+				return
+			}
+			if err := fd.Close(); err != nil {
+				r.opError("close(write)", err)
+				return
+			}
+			r.ack(s.File, w, *seq) // descriptor (Flags.Sync) closed: acknowledged
+			return
+		}
+		if err := fd.Close(); err != nil {
+			r.opError("close(write)", err)
+		}
+
+	case "mode", "modtime", "getnode", "type", "setmode", "setmtime", "size":
+		fi, err := r.file(s.File)
+		if err != nil {
+			r.opError("lookup", err)
+			return
+		}
+		reps := 1
+		if isAccessor(s.Kind) && s.Rep > 1 {
+			reps = s.Rep
+		}
+		for k := 0; k < reps && err == nil; k++ {
+			switch s.Kind {
+			case "mode":
+				_, err = fi.Mode()
+			case "modtime":
+				_, err = fi.ModTime()
+			case "getnode":
+				_, err = fi.GetNode()
+			case "type":
+				if fi.Type() != mfs.TFile {
+					err = errors.New("File.Type() is not TFile")
+				}
+			case "setmode":
+				err = fi.SetMode(os.FileMode(s.Arg))
+			case "setmtime":
+				err = fi.SetModTime(time.Unix(1_700_000_000+r.mtimeN.Add(1), 0))
+			case "size":
+				_, err = fi.Size()
+			}
 		}
 		if err != nil {
 			r.opError(s.Kind, err)
@@ -1120,8 +1371,15 @@ func (r *childRun) step(w int, s Step, seq *int) {
 			return
 		}
 		d := n.(*mfs.Directory)
-		if _, err := d.List(r.ctx); err != nil {
-			r.opError("list", err)
+		reps := 1
+		if s.Rep > 1 {
+			reps = s.Rep
+		}
+		for k := 0; k < reps; k++ {
+			if _, err := d.List(r.ctx); err != nil {
+				r.opError("list", err)
+				break
+			}
 		}
 		if _, err := d.ListNames(r.ctx); err != nil {
 			r.opError("listnames", err)
@@ -1185,6 +1443,33 @@ func (r *childRun) worker(w int, script []Step, wg *sync.WaitGroup) {
 	}()
 	defer r.active.Add(-1)
 	seq := 0
+	if r.c.Follow && isFollower(script) && r.followed {
+		// hot readers: repeat the script until every non-follower has finished; the call
+		// budget ends a follower whose writers are stuck
+		perPass := 0
+		for _, s := range script {
+			n := max(s.Rep, 1)
+			if s.Kind == "list" {
+				n *= 16
+			}
+			perPass += n
+		}
+		for calls := 0; calls < followBudget; calls += perPass {
+			for _, s := range script {
+				r.step(w, s, &seq)
+				r.stepsDone.Add(1)
+				// with few Ps the spinning followers must not starve the workers they follow
+				runtime.Gosched()
+			}
+			if r.leaders.Load() == 0 {
+				break
+			}
+		}
+		return
+	}
+	if r.c.Follow && r.followed {
+		defer r.leaders.Add(-1)
+	}
 	for i := 0; i < r.c.Loops; i++ {
 		for _, s := range script {
 			r.step(w, s, &seq)
@@ -1316,6 +1601,16 @@ func runInChild(c Case) childResult {
 	}
 	var wg sync.WaitGroup
 	r.active.Store(int64(len(c.Workers)))
+	if c.Follow {
+		n := 0
+		for _, sc := range c.Workers {
+			if !isFollower(sc) {
+				n++
+			}
+		}
+		r.leaders.Store(int64(n))
+		r.followed = n > 0 // nobody to follow: everybody just runs Loops passes
+	}
 	for w, sc := range c.Workers {
 		wg.Add(1)
 		go r.worker(w, sc, &wg)
